@@ -28,6 +28,7 @@ import (
 	"github.com/makiuchi-d/gozxing/aztec/decoder"
 	"github.com/makiuchi-d/gozxing/aztec/detector"
 	"github.com/makiuchi-d/gozxing/common"
+	"github.com/makiuchi-d/gozxing/common/reedsolomon"
 	"golang.org/x/text/transform"
 )
 
@@ -293,6 +294,31 @@ func c11GoDetect(img *image.Gray) (desc string, bits []string) {
 		return fmt.Sprintf("ok compact=%v layers=%d dw=%d", r.IsCompact(), r.GetNbLayers(), r.GetNbDatablocks())
 	})
 	return
+}
+
+// the library's Reed-Solomon ENCODER over the field of codeword size w: the n check words of `words`
+func c11GoRSParity(w int, words []int, n int) string {
+	return Safe(func() string {
+		var f *reedsolomon.GenericGF
+		switch w {
+		case 4:
+			f = reedsolomon.GenericGF_AZTEC_PARAM
+		case 6:
+			f = reedsolomon.GenericGF_AZTEC_DATA_6
+		case 8:
+			f = reedsolomon.GenericGF_AZTEC_DATA_8
+		case 10:
+			f = reedsolomon.GenericGF_AZTEC_DATA_10
+		default:
+			f = reedsolomon.GenericGF_AZTEC_DATA_12
+		}
+		buf := make([]int, len(words)+n)
+		copy(buf, words)
+		if err := reedsolomon.NewReedSolomonEncoder(f).Encode(buf, n); err != nil {
+			return "ERR:" + errKind(err)
+		}
+		return ints(buf[len(words):])
+	})
 }
 
 func c11GoHLD(bits []bool) string {
@@ -932,12 +958,38 @@ func runC11(c *Ctx) {
 		}
 		id := fmt.Sprintf("ref %s %d %s", kind, j.sz.layers, j.arg)
 		g := c11Grid(sym.rows)
+		// cross-check of the reference (evidence only, no verdict: the Aztec decoder does not use the encoder):
+		// the reference check words = the library's own ReedSolomonEncoder over the field of this size
+		// (theorem ref_parity_is_rs_encode, here on the real code), also for the mode message over GF(16)
+		if len(sym.chk) > 0 && (c.Thorough || j.sz.layers <= 12 || r.Chance(0.3)) {
+			if c11GoRSParity(c11WordSize(j.sz.layers), sym.words, len(sym.chk)) == ints(sym.chk) {
+				c.Note("ref-rs-vs-go-encoder:agree")
+			} else {
+				c.Note("ref-rs-vs-go-encoder:DISAGREE " + id)
+			}
+		}
+		if len(sym.mode) == 28 || len(sym.mode) == 40 {
+			nd, nc := 2, 5
+			if len(sym.mode) == 40 {
+				nd, nc = 4, 6
+			}
+			mw := make([]int, nd+nc)
+			for i := range mw {
+				v, _ := strconv.ParseInt(sym.mode[4*i:4*i+4], 2, 32)
+				mw[i] = int(v)
+			}
+			if c11GoRSParity(4, mw[:nd], nc) == ints(mw[nd:]) {
+				c.Note("ref-mode-rs-vs-go-encoder:agree")
+			} else {
+				c.Note("ref-mode-rs-vs-go-encoder:DISAGREE " + id)
+			}
+		}
 		// (a) decoder on the matrix
 		out, text, ok := c11GoDecode(g, j.sz.compact, sym.dw, j.sz.layers)
 		c.Oracle("decode", ok && text == j.want, fmt.Sprintf("decode-%s-%d", kind, j.sz.layers), id,
 			fmt.Sprintf("Decoder.Decode on the reference matrix: got %s want text %s", c11Short(out), hexs([]byte(j.want))))
-		// the model's list-based RS mirror is slow on big symbols: in the quick tier compare those 1 in 3
-		cmpModel := c.Thorough || j.sz.layers <= 10 || r.Chance(0.34)
+		// the model's list-based Reed-Solomon decoder is slow on big symbols: in the quick tier compare those 2 in 3
+		cmpModel := c.Thorough || j.sz.layers <= 10 || r.Chance(0.67)
 		if cmpModel {
 			c11CmpNow(c, "decode", fmt.Sprintf("c11 decode %s %d %d %s %s", kind, j.sz.layers, sym.dw, strings.Join(sym.rows, "/"), regArg), out)
 		}
